@@ -1114,7 +1114,7 @@ func bpCorpus() []hist {
 func runBpFs(cfg config) {
 	o := newOut(cfg.dir, cfg.name)
 	defer o.close(cfg.name)
-	o.rule = "history of path-taking calls through BasePathFS(base, B) over a recording base: (tb) paths handed to the base = model's ToBasePath of the arguments; (back) returned paths = model's fromBasePath/curDir of the base's; (conf) every logged path is inside B by the model's hasBasePath; (ref) outcome, results, error paths (modulo Abs in the virtual namespace), File.Name, resulting tree and cwd equal a standalone MemFS holding B's content; (out) snapshot of the base outside B unchanged around every call; (leak) no result contains the secret planted outside B"
+	o.rule = "history of path-taking calls through BasePathFS(base, B) over a recording base: (tb) paths handed to the base = model's ToBasePath of the arguments; (back) returned paths = model's fromBasePath/curDir of the base's; (conf) every logged path is inside B by the model's hasBasePath; (ref) outcome, results, error paths (modulo Abs in the virtual namespace), File.Name, resulting tree and cwd equal a standalone MemFS holding B's content; (out) snapshot of the base outside B unchanged around every call; (leak) no result contains the secret planted outside B; a history counts as distinct non-trivial when its case line (calls, base cwds, paths that reached the base) is distinct and at least one path reached the base"
 	var hs []hist
 	if lines := cfg.replayLines(); lines != nil {
 		for _, l := range lines {
@@ -1238,7 +1238,7 @@ func md5sum(s string) []byte { h := md5.Sum([]byte(s)); return h[:] }
 func runBpStr(cfg config) {
 	o := newOut(cfg.dir, cfg.name)
 	defer o.close(cfg.name)
-	o.rule = "ToBasePath(p), Abs(p), FromBasePath(p), Getwd() of BasePathFS(MemFS, B) with the base's current directory set to an arbitrary string, against the extracted model (to_base_path, from_base_safe of it, from_base_path, cur_dir)"
+	o.rule = "ToBasePath(p), Abs(p), FromBasePath(p), Getwd() of BasePathFS(MemFS, B) with the base's current directory set to an arbitrary string, against the extracted model (to_base_path, from_base_safe of it, from_base_path, cur_dir); distinct non-trivial = distinct inputs that are relative or contain a '..' element"
 	type cse struct{ B, cwd, p string }
 	var cs []cse
 	if lines := cfg.replayLines(); lines != nil {
